@@ -69,6 +69,7 @@ LOCK_EVENTS = ('locks', 'unlock-scope', 'lk-unlock', 'lk-lock', 'm-lock', 'm-unl
 APPEND = ('push_back', 'emplace_back')
 NEUTRAL = ('reserve', 'shrink_to_fit', 'get_allocator', 'begin', 'end', 'rbegin', 'rend')   # creating an iterator mutates nothing
 DESTRUCTIVE = ('clear', 'pop_back', 'erase', 'resize', 'assign', 'swap', 'operator=')
+ALLOCATING = ('reserve', 'resize', 'assign', 'insert', 'emplace', 'push_back', 'emplace_back', 'shrink_to_fit')
 
 
 def strip_targs(q):
@@ -519,6 +520,24 @@ def check_buffer_ops(ctx, tu, sy, f, counts):
             k = n.get('kind')
             if own_call(tu, n, BUF):
                 found.und(R2, 'consume() delegates to the member %s(), whose body is not available: not modelled' % own_call(tu, n, BUF), n)
+            # exception safety of the hand-out: once the content has left the buffer and lives only in a local (or the return
+            # value), an operation that allocates by contract may throw, and unwinding destroys the whole batch
+            if holders and bufst == 'empty' and inl.depth == 0:
+                alloc = None
+                if k == 'CXXNewExpr':
+                    alloc = 'operator new'
+                elif k == 'CXXMemberCallExpr':
+                    s_, obj_, _a = tu.call_parts(n)
+                    if (s_.get('rec') or '').startswith('std::vector') and last(s_.get('q')) in ALLOCATING:
+                        alloc = '%s.%s()' % (tu.show(obj_) if obj_ is not None else '?', last(s_.get('q')))
+                elif k in ('CXXConstructExpr', 'CXXTemporaryObjectExpr') and (tu.sd(n).get('rec') or '').startswith('std::vector') \
+                        and tu.kids(n) and not is_move(tu, sy, n) and 'allocator' not in (tu.sd(n).get('fty') or '')[:40]:
+                    alloc = 'construction of a std::vector with content'
+                if alloc is not None:
+                    found.viol(R2, FN, 'allocation-after-move-out', 'consume() calls %s after the content has been moved out of the '
+                               'buffer into a local and before it is returned: this can throw (std::bad_alloc / std::length_error), '
+                               'the local is destroyed during unwinding and the whole batch is lost - it appears in no consume() at '
+                               'all. Allocate before the content leaves the buffer (or swap with a pre-sized vector)' % alloc, n)
             if k == 'DeclStmt':
                 for v in tu.kids(n):
                     if v.get('kind') != 'VarDecl':
@@ -883,6 +902,66 @@ def check_update(ctx, tu, sy, f, counts):
     inst_name = '%s %s' % (f['q'].replace('rkcommon::utility::', ''), f['fty'])
     emit(ctx, tu, g, res, found, inst_name, (R3,), tu.fn_loc(f),
          {R3: 'returns true exactly on the installing path; installs iff the flag was observed set; flag reset with the install'})
+
+
+def check_flag_init(ctx, tu, sy, f, counts):
+    """R-C12-3 (initial state): every constructor leaves the pending flag false.  An uninitialised flag (std::atomic<bool> and
+    bool have trivial default construction) or a flag that starts set makes the first update() install a value nobody assigned."""
+    T = TABLE[VAL]
+    g = tu.cfg(f)
+    FLAG = (VAL, 'newValue')
+    counts[R3] += 1
+    inl = inliner(tu, T)
+    found = Found(T['file'], inl)
+    FN = 'TransactionalValue::TransactionalValue'
+
+    def init_value(e):
+        init = tu.node(e[1])
+        if init is None:
+            return 'uninit'
+        k = init.get('kind')
+        if k == 'CXXDefaultInitExpr':
+            fd = tu.node(e[2])
+            lits = [x for x in tu.walk(fd) if x.get('kind') == 'CXXBoolLiteralExpr'] if fd is not None else []
+            return bool(lits[0].get('value')) if len(lits) == 1 else None
+        x = tu.strip(init, casts=True)
+        while x is not None and x.get('kind') in ('InitListExpr', 'CXXConstructExpr', 'CXXTemporaryObjectExpr'):
+            ks = tu.kids(x)
+            if not ks:
+                # default construction / empty braces: std::atomic<bool>() is trivial in C++11..17 (indeterminate); `{}` on a
+                # bool value-initialises
+                return 'uninit' if x.get('kind') != 'InitListExpr' else False
+            if len(ks) != 1:
+                return None
+            x = tu.strip(ks[0], casts=True)
+        return sy.const_bool(x) if x is not None else None
+
+    # state: 'uninit' | True | False | None (unknown)
+    def transfer(blk, i, e, st):
+        if e[0] == 'I' and e[3] == FLAG[1]:
+            return [init_value(e)]
+        ev = sy.event(e)
+        if ev is not None and ev[0] == 'store' and ev[1] == FLAG:
+            return [ev[2]]
+        return [st]
+
+    res, outs = inl.explore(f, ['uninit'], transfer, None, C12Hooks(sy, found, R3))
+    for (st, _rv, via) in outs:
+        if st is False:
+            continue
+        at = exit_at(res, via)
+        if st == 'uninit':
+            found.viol(R3, FN, 'flag-uninitialised', 'this constructor leaves the pending flag newValue uninitialised (no default member '
+                       'initialiser, not in the initialiser list, not assigned in the body; default construction of a std::atomic<bool> '
+                       '/ bool is trivial): in recycled storage it reads true, and the first update() returns true and installs a '
+                       'queuedValue nobody assigned', None, at)
+        elif st is True:
+            found.viol(R3, FN, 'flag-initially-set', 'this constructor leaves the pending flag newValue set: the first update() returns '
+                       'true and installs a queuedValue nobody assigned', None, at)
+        else:
+            found.und(R3, 'initial value of the pending flag is not a constant', None)
+    inst = '%s %s' % (f['q'].replace('rkcommon::utility::', ''), f['fty'])
+    emit(ctx, tu, g, res, found, inst, (R3,), tu.fn_loc(f), {R3: 'pending flag initialised to false'})
 
 
 def check_assign(ctx, tu, sy, f, counts):
@@ -1411,6 +1490,8 @@ def check_tu(ctx, tu, counts):
         for f in tu.functions.values():
             if f['dep'] or f.get('rec') != rec or tu.cfg(f) is None:
                 continue
+            if f.get('ctor') and rec == VAL and f.get('ctor') in ('default', 'other'):
+                check_flag_init(ctx, tu, sy, f, counts)
             if f.get('ctor') or f.get('dtor'):
                 continue
             if not is_public(f):
